@@ -19,7 +19,7 @@ func init() {
 			ruleTemplatePerStage(r) // a template compiled for one evaluation is never reused by the next (its accessors are bound to the first stage instance)
 			ruleDistinct(r)         // the labels of distinct are examined in the order they were written
 			ruleJSONPathStateFresh(r)
-			ruleKeyEncoders(r)       // grouping keys are a pure function of the label set (no per-process seed): key-sorted output is the same in every process
+			ruleKeyEncoders(r) // grouping keys are a pure function of the label set (no per-process seed): key-sorted output is the same in every process
 			ruleKeySiblings(r)
 		},
 	})
